@@ -53,7 +53,7 @@ def precheck(case):
 
 
 FILES = ["a.ipynb", "b.ipynb", "c.ipynb"]
-BAD_FILES = ["notes.txt", "broken.ipynb", "missing.ipynb", "/etc/passwd", "served/a.ipynb"]
+BAD_FILES = ["notes.txt", "broken.ipynb", "missing.ipynb", "/etc/passwd", "served/a.ipynb", "empty.ipynb"]
 
 
 @st.composite
@@ -133,6 +133,7 @@ def run_case(case):
             f.write("not a notebook\n")
         with open(os.path.join(cwd, "broken.ipynb"), "w") as f:
             f.write('{"cells": [')
+        open(os.path.join(cwd, "empty.ipynb"), "w").close()      # zero bytes: not a notebook (only git's merge tool may supply one)
         nbformat.write(to_nb(case["notebooks"][0]), os.path.join(top, "outside.ipynb"))
         with open(os.path.join(cwd, "merged_out.ipynb"), "w") as f:
             f.write("PREVIOUS CONTENT OF THE OUTPUT FILE\n")
@@ -293,10 +294,14 @@ async def _session(case, out, top, cwd):
                         if not (200 <= code < 300):
                             out.fail("store_endpoint", "valid_store_refused", "status %d" % code, detail=detail)
                         else:
-                            written = plain(nbformat.read(os.path.join(top, target), as_version=4))
                             want = plain(nbformat.reads(json.dumps(body["merged"]), as_version=4))
-                            if canon(written) != canon(want):
-                                out.fail("store_endpoint", "stored_file_differs_from_submitted_notebook", detail=detail)
+                            try:
+                                written = plain(nbformat.read(os.path.join(top, target), as_version=4))
+                            except Exception:
+                                written = None
+                            if written is None or canon(written) != canon(want):
+                                out.fail("store_endpoint", "stored_file_differs_from_submitted_notebook" if written is not None
+                                         else "output_file_does_not_hold_the_submitted_notebook", detail=detail)
                     else:
                         malformed = True
                         if code < 400:
